@@ -667,7 +667,7 @@ Definition cases : list (version * bool) := [
 
 	// ---------- 5. front-end plumbing, end to end ----------
 	evals += endToEnd(meta, outDir)
-	feVersions := []string{"1.13", "1.16", "1.17", "1.19", ""}
+	feVersions := []string{"1.13", "1.16", "1.17", "1.19", "1.20", "go1.20", ""} // 1.20: a minor that ends in zero and has 1.2 as a textual prefix
 	feObs := sObs
 	if tier == "thorough" {
 		feVersions = []string{"1.13", "1.14", "1.15", "1.16", "1.17", "1.18", "1.20", "1.21", "go1.17", ""}
